@@ -453,6 +453,16 @@ def run(ctx):
                       'alt', prefix=['-t', root])
         except Exception as e:
             ctx.notes.append('alt tables query unavailable: %r' % (e,))
+    for bi, (name, msg) in enumerate(cases.big_cases(rng)):
+        if not ctx.mine(bi):
+            continue
+        try:
+            m = dec.process(msg.bytes)
+        except Exception:
+            ctx.count('decode_raises')
+            continue
+        ctx.count('big_cases')
+        query_message(ctx, q, m, dict(origin='big', shape=name, ids=msg.ids, compressed=msg.compressed, nsub=msg.nsub), 'big', 20)
     for nsub in (2, 3, 4, 5, 3, 4):
         for name, msg in cases.same_layout_cases(rng, nsub=nsub):
             n += 1
